@@ -5,6 +5,9 @@ HERE = os.path.dirname(os.path.dirname(os.path.abspath(__file__)))
 BASE = json.load(open('/root/.vp/BASELINE.json'))
 
 CHECKS = {
+ 'C07': dict(cat='exploration', sec='3/C07', technique='runtime monitoring under a cooperative scheduler: real FileLock/SemLock contenders serialised at open/flock/stat/close/gc-close/remove/sleep with a virtual clock; holder-count monitor, timeout oracle, re-acquire probe; random/PCT schedules + preemption-bounded exhaustive DFS',
+   text='2-4 contenders x 1-3 lock/unlock cycles on one path run through the repository\'s FileLock (keep-file and remove-on-unlock) and SemLock (n=1..3); every file-system call of the lock code is a scheduling point owned by a deterministic scheduler, time is virtual. Monitors: number of contenders inside <= 1 (<= n), LockTimeout only after the full timeout and only if every failed flock attempt happened while another contender held/was acquiring/releasing, a fresh lock succeeds after all finished, no deadlock. Small configurations are enumerated completely up to a preemption bound (sleep = yield); larger ones are sampled with random and PCT strategies. Every run is a replayable trace.',
+   note='trusted: the scheduler and the module-attribute proxies (lockfile.open/fcntl/os, lock.os/time/random); threads with separate open() calls stand in for processes because flock is per open file description; code between scheduling points is atomic; cleanup_lockdir excluded.'),
  'C15': dict(cat='exploration', sec='3/C15', technique='runtime monitoring under a cooperative scheduler: the real ThreadPool with consumer and adopted worker threads serialised at every queue operation; forced completion permutations, random/PCT schedules, preemption-bounded exhaustive DFS; oracle on the yielded sequence',
    text='The real ThreadPool.imap/map/starmap/starcall and module helpers run with n=1..6 items, pool sizes 1..4, failing items at chosen positions, both result modes; a deterministic scheduler owns every Queue.put/get/empty/join/task_done and a point inside each work item, so completion orders and queue interleavings are chosen, recorded and replayable. All n! completion orders (n<=5 quick, <=6 thorough) are forced; small configurations are enumerated by DFS up to a preemption bound (marked as exhaustive sub-spaces); the rest is random/PCT. Oracle: one result per input in input order, failures attached to their own index or re-raised with a correct prefix, termination (deadlock = no enabled thread).',
    note='trusted: the scheduler (vlib/sched.py) and the instrumented queue.Queue subclass; code between queue operations is atomic in this mode. Worker threads left blocked after the call returned are counted, not judged.'),
